@@ -415,6 +415,16 @@ func c01SpaceB(ctx *rt.Ctx, job *rt.Job, a c01Args) []*rt.Violation {
 			exprs = append(exprs, model.Not(exprs[i]))
 		}
 	}
+	// every single (column, value) of the large columns, so that every stored bitmap is read in both open modes
+	// (a loader that drops one bitmap per batch is only seen by asking for exactly that value)
+	for v := 0; v < 1500 && v < a.N; v++ {
+		exprs = append(exprs, model.Eq("m1500", strconv.Itoa(v)))
+	}
+	if a.N <= 4097 {
+		for v := 0; v < a.N; v++ {
+			exprs = append(exprs, model.Eq("uniq", strconv.Itoa(v)))
+		}
+	}
 	uex := make([]updog.Expression, len(exprs))
 	for i, e := range exprs {
 		uex[i] = e.Updog()
@@ -566,7 +576,7 @@ func c01Run(ctx *rt.Ctx) []*rt.Violation {
 		add("B65536", c01Args{Space: "B", N: 65536, Trail: 3}, 1)
 		add("A", c01Args{Space: "A", Rows: 3, Depth: 1, Arity: 2}, 8)
 		add("A2", c01Args{Space: "A2", Rows: 3, Depth: 1, Arity: 2}, 8)
-		add("C", c01Args{Space: "C", Depth: 2, Arity: 2}, 4)
+		add("C", c01Args{Space: "C", Depth: 2, Arity: 3}, 16)
 	}
 	outs := rt.RunJobs(ctx, jobs, rt.SpawnOpt{})
 	vs := rt.Collect(ctx, outs, nil)
